@@ -64,28 +64,7 @@ def k1(ctx, fx, A):
         return
 
     def pruned_edges(val):
-        """edges contradicted by valuation {param_idx: True(Some)/False(None)}"""
-        removed = []
-        for (b, subj) in common.discr_switches(new):
-            s = peel(subj)
-            if s.kind == "param" and s.d["idx"] in val:
-                want = 1 if val[s.d["idx"]] else 0
-                t = new.term(b)
-                listed = set(v for (v, _) in t["targets"])
-                for (v, tgt) in t["targets"]:
-                    if v != want:
-                        removed.append((b, tgt))
-                if want in listed:
-                    removed.append((b, t["otherwise"]))
-                elif len(listed) < 1:
-                    pass
-        for (b, tt, ft, c) in bool_switches(new):
-            if c.kind == "call" and c.kids and c.d["term"].get("name") in ("is_some", "is_none"):
-                s = peel(c.kids[0])
-                if s.kind == "param" and s.d["idx"] in val:
-                    truth = val[s.d["idx"]] if c.d["term"]["name"] == "is_some" else (not val[s.d["idx"]])
-                    removed.append((b, ft if truth else tt))
-        return removed
+        return common.option_valuation_edges(new, val)
     nsw = len(pruned_edges({aud: True, nonce: True}))
     ctx.floor("C04.K1", "switch edges decided by the (aud, nonce) valuation", nsw, 3)
     for (va, vn) in ((True, True), (True, False), (False, True), (False, False)):
@@ -116,24 +95,43 @@ def requires_edges(A, fn, targets):
 
 
 # ---------------------------------------------------------------------------------------------
+def kb_context(fn):
+    """edges of fn that are infeasible when key binding is requested: when the decode sits (after inlining) in the function that takes the
+    optional expected_aud / expected_nonce, the six checks are owed on the paths of the both-given valuation only (the other valuations are C04.K1's)"""
+    val = {}
+    for i in range(1, fn.arg_count + 1):
+        if (fn.local_ty(i) or "") == "std::option::Option<std::string::String>" and fn.local_user(i) in ("expected_aud", "expected_nonce"):
+            val[i] = True
+    if len(val) != 2:
+        opts = [i for i in range(1, fn.arg_count + 1) if (fn.local_ty(i) or "") == "std::option::Option<std::string::String>"]
+        val = {i: True for i in opts} if (fn.name == NEW and len(opts) == 2) else {}
+    return common.option_valuation_edges(fn, val) if val else []
+
+
 def k2(ctx, fx, A, fn, b, node):
     fv = vals(fn)
     line = fn.term(b).get("line")
-    oks = [e["bb"] for e in cfg.exit_sites(fn) if e["kind"] == "Ok"]
+    rem = kb_context(fn)
+    live = cfg.reachable(fn, [0], removed_edges=rem)
+    oks = [e["bb"] for e in cfg.exit_sites(fn) if e["kind"] == "Ok" and e["bb"] in live]
     if not oks:
         ctx.missing("C04.K2", "Ok exit of " + fn.name, "no Ok exit")
         return
+    _g = guarded
+    guarded_ = lambda f_, site, good: _g(f_, site, good, removed=rem)
     tok, key, valn = node.kids[0], node.kids[1], node.kids[2]
     # (a)
     dgood, _ = success_edges(fn, node)
-    a_ok = bool(dgood) and all(guarded(fn, o, dgood) for o in oks)
+    a_ok = bool(dgood) and all(guarded_(fn, o, dgood) for o in oks)
     chk(ctx, fn, line, "a:decode-dominates", a_ok, "every Ok exit is dominated by the KB-JWT decode's success edge (absent KB-JWT or failed decode lead to Err)", "an Ok exit is reachable without a successful decode of the key-binding JWT")
     chk(ctx, fn, line, "a:token", must(tok, lambda x: is_field(x, "unverified_input_key_binding_jwt")), "token is the presented key-binding JWT", "decode's token is not the presented key-binding JWT: %s" % vstr(tok, 4))
     key_ok = must(key, lambda x: x.kind == "call" and x.d["term"].get("name") == "from_jwk" and must(x.kids[0], lambda y: y.kind == "call" and y.d["term"].get("name") == "from_value"
                   and must(y.kids[0], lambda z: z.kind == "call" and z.d["term"].get("name") == "get" and len(z.kids) > 1 and const_value(z.kids[1]) == "jwk" and must(z.kids[0], lambda w: is_field(w, "_holder_public_key_payload")))))
     chk(ctx, fn, line, "a:key-from-cnf", key_ok, "key = DecodingKey::from_jwk(from_value(_holder_public_key_payload[\"jwk\"]))", "the KB-JWT key does not must-derive from the verified payload's cnf.jwk: %s" % vstr(key, 5))
-    tainted = has_field(key, "unverified_input_key_binding_jwt") or may(key, lambda x: x.kind == "call" and (x.d["term"].get("resolved") or "") == "jsonwebtoken::decode_header") \
-        or has_field(key, "unverified_input_sd_jwt_payload")
+    # what comes out of a signature-checked decode is verified data: the taint walk does not look behind such a call
+    behind = [x for x in walk(key, pred_stop=vmodel.is_decode)]
+    tainted = any(live_field(x, "unverified_input_key_binding_jwt") or live_field(x, "unverified_input_sd_jwt_payload")
+                  or (x.kind == "call" and (x.d["term"].get("resolved") or "") == "jsonwebtoken::decode_header") for x in behind)
     chk(ctx, fn, line, "a:key-untainted", not tainted, "the key does not depend on the KB-JWT itself or on unverified data", "the KB-JWT key depends on attacker-controlled data (the KB-JWT / unverified payload)")
     # (b)
     sts = vmodel.eval_validation(fx, valn)
@@ -173,12 +171,12 @@ def k2(ctx, fx, A, fn, b, node):
             eq_edge = (bb, tt) if c.d["term"]["name"] == "eq" else (bb, ft)
             if (lpred(l) and rpred(r)) or (lpred(r) and rpred(l)):
                 good.append(eq_edge)
-        if good and all(guarded(fn, o, good) for o in oks):
+        if good and all(guarded_(fn, o, good) for o in oks):
             ctx.ok("C04.K2", fn, what, "every Ok exit passes the equal edge of " + okmsg, line=fn.term(good[0][0]).get("line"))
         else:
             path = None
             for o in oks:
-                path = common.unguarded_path(fn, o, good)
+                path = common.unguarded_path(fn, o, list(good) + list(rem))
                 if path:
                     break
             extra = ""
@@ -186,6 +184,16 @@ def k2(ctx, fx, A, fn, b, node):
                 lines = sorted(set(fn.term(x).get("line") for x in path if fn.term(x).get("line")))
                 extra = " (a path to Ok avoids the comparison; it runs through lines %s)" % lines[-6:]
             ctx.finding("C04.K2", fn, what, badmsg + extra, line=line)
+
+
+def live_field(x, name):
+    """a read of field `name` from a live struct (not the `..Default::default()` filler of a struct literal)"""
+    if not is_field(x, name):
+        return False
+    r = peel(x.kids[0])
+    while r.kind in ("field", "variant") and r.kids:
+        r = peel(r.kids[0])
+    return not (r.kind == "call" and r.d["term"].get("name") == "default")
 
 
 def peel_to_call(v):
